@@ -1505,6 +1505,122 @@ def circle_float_check(ctx, rng, count):
             return
 
 
+# ---- float correspondences of the formula models over R (Model/DisplayRound.v, DisplayDipole.v): the python
+# functions below transcribe the Coq definitions term by term; agreement validates the models, it proves nothing
+def m_linspace(a, b, N, k):
+    return a + k * ((b - a) / (N - 1))
+
+
+def m_linspace_open(a, b, N, k):
+    return a + k * ((b - a) / N)
+
+
+def m_seg_vertex(r1, r2, h, p1, p2, N, b, k):
+    r = r1 if b in (0, 2) else r2
+    z = h / 2 if b in (0, 1) else -(h / 2)
+    t = m_linspace(p1, p2, N, k) * (math.pi / 180)
+    return [r * math.cos(t), r * math.sin(t), z]
+
+
+def m_dipole_rotvec(nv):
+    cr = np.cross(nv, [0.0, 0.0, 1.0])
+    n = math.sqrt(cr @ cr)
+    t = math.acos(max(-1.0, min(1.0, nv[2])))
+    if n == 0:
+        return (-t / 1) * np.array([-np.sign(nv[2]), 0.0, 0.0])
+    return (-t / n) * cr
+
+
+def m_rotvec_apply(vec, v):
+    a = math.sqrt(vec @ vec)
+    if a == 0:
+        return np.array(v, dtype=float)
+    k = vec / a
+    return v * math.cos(a) + np.cross(k, v) * math.sin(a) + np.outer(v @ k * (1 - math.cos(a)), k)
+
+
+def _body_xyz(obj, **kw):
+    dr = do_show([obj], {"backend": "plotly", "return_fig": True, "units_length": "m", **kw})
+    body = [x for x in dr["traces"] if x["type"] == "mesh3d"]
+    if len(body) != 1:
+        raise AssertionError("figure without exactly one mesh")
+    return body[0]["xyz"]
+
+
+def round_float_check(ctx, rng, count):
+    def bad(name, what):
+        ctx.add_broken("broken-correspondence", name, what)
+    for t in range(count):
+        kind = t % 4
+        ctx.bump("round-float:" + ["segment", "cylinder", "sphere", "dipole"][kind])
+        if kind == 0:
+            r1 = rng.choice([0.0, round(rng.uniform(0.1, 2), 3)])
+            r2 = r1 + round(rng.uniform(0.1, 2), 3)
+            h = round(rng.uniform(0.1, 3), 3)
+            p1 = rng.choice([0.0, -90.0, round(rng.uniform(-360, 300), 1)])
+            p2 = round(p1 + rng.choice([360.0, 5.0, 0.5, round(rng.uniform(1, 359), 1)]), 1)
+            if p2 - p1 > 360:
+                p1, p2 = 0.0, 360.0
+            ctx.case(("segment-float", r1, r2, h, p1, p2), True)
+            got = _body_xyz(magpy.magnet.CylinderSegment(polarization=(0, 0, 1), dimension=(r1, r2, h, p1, p2)))
+            N = max(5, int(25 * abs(p1 - p2) / 360))
+            want = np.array([m_seg_vertex(r1, r2, h, p1, p2, N, b, k) for b in range(4) for k in range(N)])
+            if got.shape != want.shape or np.abs(got - want).max() > 1e-12 * max(r2, h):
+                return bad("make_CylinderSegment vertex formula", f"dimension {(r1, r2, h, p1, p2)}: the drawn vertices are "
+                           f"not r cos/sin(deg2rad(phi1 + k (phi2 - phi1)/(N - 1))), +-h/2 with N = {N}")
+        elif kind == 1:
+            d, h = round(rng.uniform(0.1, 5), 3), round(rng.uniform(0.1, 5), 3)
+            ctx.case(("cylinder-float", d, h), True)
+            got = _body_xyz(magpy.magnet.Cylinder(polarization=(0, 0, 1), dimension=(d, h)))
+            N = 50
+            ts = [m_linspace_open(0, 2 * math.pi, N, k) for k in range(N)]
+            want = np.array([[math.cos(x) * 0.5 * d, math.sin(x) * 0.5 * d, s * 0.5 * h] for s in (-1, 1) for x in ts]
+                            + [[0, 0, -0.5 * h], [0, 0, 0.5 * h]])
+            if got.shape != want.shape or np.abs(got - want).max() > 1e-12 * max(d, h):
+                return bad("make_Prism vertex formula", f"Cylinder dimension {(d, h)}")
+        elif kind == 2:
+            d = round(rng.uniform(0.1, 5), 3)
+            ctx.case(("sphere-float", d), True)
+            got = _body_xyz(magpy.magnet.Sphere(polarization=(0, 0, 1), diameter=d))
+            N = 15
+            grid = [[math.cos(m_linspace(-math.pi / 2, math.pi / 2, N, i)) * math.sin(m_linspace_open(0, 2 * math.pi, N, j)) * d * 0.5,
+                     math.cos(m_linspace(-math.pi / 2, math.pi / 2, N, i)) * math.cos(m_linspace_open(0, 2 * math.pi, N, j)) * d * 0.5,
+                     math.sin(m_linspace(-math.pi / 2, math.pi / 2, N, i)) * d * 0.5] for i in range(N) for j in range(N)]
+            want = np.array(grid[N - 1:len(grid) - N + 1])
+            if got.shape != want.shape or np.abs(got - want).max() > 1e-12 * d:
+                return bad("make_Ellipsoid vertex formula", f"Sphere diameter {d}")
+        else:
+            m = np.array(special_dir(rng, zero=False) if t % 8 == 3 else [rng.uniform(-2, 2) for _ in range(3)], dtype=float)
+            ctx.case(("dipole-float", m.round(6).tolist()), True)
+            kw = {"style_sizemode": "absolute", "style_size": DIPOLE_SIZE, "style_pivot": rng.choice(["middle", "tail", "tip"])}
+            ref = _body_xyz(magpy.misc.Dipole(moment=(0, 0, 1)), **kw)
+            got = _body_xyz(magpy.misc.Dipole(moment=m), **kw)
+            nv = m / np.linalg.norm(m)
+            want = m_rotvec_apply(m_dipole_rotvec(nv), ref)
+            if got.shape != want.shape or np.abs(got - want).max() > 1e-9 * DIPOLE_SIZE:
+                return bad("make_Dipole rotation formula", f"moment {m.tolist()}: the drawn arrow is not the +z arrow "
+                           "turned by rotvec_apply(dipole_rotvec(m))")
+
+
+def tetra_cases(ctx, rng, count):
+    out = []
+    for _ in range(count):
+        while True:
+            v = [[rng.randint(-9, 9) for _ in range(3)] for _ in range(4)]
+            a = np.array(v)
+            if abs(round(np.linalg.det(a[1:] - a[0]))) >= 1:
+                break
+        dr = do_show([magpy.magnet.Tetrahedron(polarization=(0, 0, 1), vertices=v)],
+                     {"backend": "plotly", "return_fig": True, "units_length": "m"})
+        body = [x for x in dr["traces"] if x["type"] == "mesh3d"]
+        if len(body) != 1 or "ijk" not in body[0]:
+            raise AssertionError("Tetrahedron figure without exactly one indexed mesh")
+        out.append((f"(CTetra {cv(v[0])} {cv(v[1])} {cv(v[2])} {cv(v[3])} {c_vlist(octa.ints(body[0]['xyz']))} "
+                    f"{c_vlist(body[0]['ijk'].tolist())})", {"kind": "tetrahedron", "verts": v}))
+        ctx.bump("tetra-table:" + ("swapped" if np.linalg.det(a[1:] - a[0]) < 0 else "kept"))
+    return out
+
+
 def cuboid_cases(ctx, rng, count):
     """make_Cuboid through show(Cuboid(dimension=ints)): doubled vertex coordinates and the facet index table"""
     out = []
@@ -1532,7 +1648,7 @@ def shapes_model_check(ctx, cases):
         return
     ctx.count("traces_validated_against_impl", len(cases) - len(res))
     for bi in res[:5]:
-        ctx.add_broken("broken-correspondence", "DisplayShapes (cuboid table) vs make_Cuboid",
+        ctx.add_broken("broken-correspondence", "DisplayShapes (cuboid / tetrahedron tables) vs implementation",
                        json.dumps(cases[bi][1]) + " :: " + cases[bi][0][:400])
 
 
@@ -1771,14 +1887,17 @@ def run(ctx):
         "integer dividing the cross product; float check of the offset formula elsewhere) and "
         "coq/Model/DisplayShapes.v (make_Cuboid vertex/facet table, Polyline line), tied by correspondence with "
         "plotly figures of show() on integer inputs",
-        "formula model coq/Model/DisplayCircle.v of the Circle line over R (not executable), compared with the "
-        "figure as floats only",
+        "translator translate/gen_shapes.py: cuboid and tetrahedron tables and vertex-count constants translated from "
+        "traces_base.py / traces_core.py; fail-closed AST fingerprints of 21 hand-modelled functions",
+        "formula models over R (not executable): coq/Model/DisplayCircle.v, DisplayRound.v (cylinder segment, prism, "
+        "ellipsoid vertex formulas with np.linspace as a + k (b - a)/(N - 1)), DisplayDipole.v (scipy from_rotvec "
+        "MODELLED as Rodrigues' formula); compared with figures as floats only",
         "NOT modelled (PARTIAL): the other per-class local shape generators (traces_core.make_*, traces_base.py), "
         "group/merge of traces, the backends' conversion; these are covered only by the search oracle on figures",
         "SI prefix table in Model/DisplayUnits.v (si_prefix_spec) and in the harness (SI) are hand-written "
         "specifications",
     ]
-    ok = ctx.regen(["GenUnits"])
+    ok = ctx.regen(["GenUnits", "GenShapes"])
     built = ctx.build_props() and ok
     if ctx.tier == "thorough" and built:
         ctx.coqchk("MV.Props.C19")
@@ -1805,7 +1924,8 @@ def run(ctx):
         triangle_model_check(ctx, tcs)
         triangle_float_check(ctx, rng, ctx.n(30, 300))
         circle_float_check(ctx, rng, ctx.n(20, 200))
-        ccs = cuboid_cases(ctx, rng, ctx.n(40, 300))
+        round_float_check(ctx, rng, ctx.n(60, 600))
+        ccs = cuboid_cases(ctx, rng, ctx.n(40, 300)) + tetra_cases(ctx, rng, ctx.n(40, 300))
         for c, _ in ccs:
             ctx.case(c, True)
         shapes_model_check(ctx, ccs)
